@@ -73,6 +73,9 @@ func validateBlock(evidencePool EvidencePool, store Store, state LatestBlockStat
 	}
 
 	// Validate block LastCommit
+	if block.LastCommit() == nil {
+		return fmt.Errorf("nil LastCommit")
+	}
 	if block.Height() == state.InitialHeight {
 		if len(block.LastCommit().Signatures) != 0 {
 			return ErrLastCommitSig
